@@ -1,8 +1,10 @@
 package main
 
 import (
+	"encoding/json"
 	"fmt"
 	"math"
+	"os"
 	"reflect"
 	"strconv"
 	"strings"
@@ -19,12 +21,28 @@ func init() {
 	// static tags need their AST by hand
 	tagAST[`a`] = &EPath{Steps: []*Stp{{Axis: "child", Test: NodeTest{Kind: "name", Local: "a"}}}}
 	tagAST[`b`] = &EPath{Steps: []*Stp{{Axis: "child", Test: NodeTest{Kind: "name", Local: "b"}}}}
+	// Go types cannot be rebuilt from a file: the family is re-run from the recorded seed and
+	// the recorded case is looked up among the disagreements it finds now
 	replayers["unm"] = func(rn *Runner, rp *Replay) (string, string, bool) {
-		return rp.Impl, rp.Model, true // Go types cannot be rebuilt from a file: the case is re-generated from (seed, index)
+		rn.Prop, rn.maxMis, rn.Tier = "C19", 1000, "quick"
+		famC19(rn)
+		rn.Flush()
+		for _, m := range rn.St.Mismatches {
+			data, err := os.ReadFile(m.Replay)
+			if err == nil && strings.Contains(string(data), jsonEscape(rp.Input)) {
+				return m.Impl, m.Model, false
+			}
+		}
+		return "(agrees with the model now)", rp.Model, true
 	}
 }
 
 var tagAST = map[string]Expr{}
+
+func jsonEscape(s string) string {
+	b, _ := json.Marshal(s)
+	return string(b[1 : len(b)-1])
+}
 
 type unexp struct {
 	a string `xsel:"a"`
